@@ -8,7 +8,8 @@
 (***************************************************************************)
 EXTENDS Exec
 
-CONSTANTS Seed, Rate
+CONSTANTS Seed, Rate,
+          KnownDevs      \* keys of recorded known findings whose deviation variants are emitted too
 
 Keep(h) == (h + Seed) % Rate = 0
 
@@ -61,7 +62,7 @@ BaseCase == [id |-> <<>>, fam |-> "", vm |-> "raw", prog |-> <<>>,
              pkt |-> [base |-> PktBase(0), bytes |-> <<>>],
              mbuf |-> [base |-> MbufBase(0), bytes |-> <<>>],
              fixed |-> <<0, 8>>, allow |-> <<>>, helpers |-> {}, fsz |-> NoFsz,
-             calc |-> FALSE, budget |-> 0]
+             calc |-> FALSE, budget |-> 0, dev |-> {}]
 
 WithPkt(c, n)  == [c EXCEPT !.pkt  = [base |-> PktBase(n),  bytes |-> PatBytes(n)]]
 WithMbuf(c, n) == [c EXCEPT !.mbuf = [base |-> MbufBase(n), bytes |-> [k \in 1..n |-> (128 + k) % 256]]]
@@ -159,9 +160,18 @@ JmpIdxA(u) == { <<"A", o, p[1], p[2], ai, bi, 0>> : o \in JmpRegForms, p \in Reg
 JmpIdxB(u) == { <<"B", o, p[1], p[2], v[1], v[2], I32[(v[1] % NI) + 1]>> : o \in JmpOpcodes, p \in AllRegPairs, v \in ValPairs4 }
 JmpIdxC(u) == { <<"C", o, 4, 0, ai, 1, I32[ii]>> : o \in JmpImmForms, ai \in 1..NV, ii \in 1..NI }
 
+\* cases on which the known deviation "jmp_imm_zext" changes the machine's behaviour get a
+\* second variant that reproduces it (only when that finding is recorded: KnownDevs)
+JmpDevApplies(t) == /\ "jmp_imm_zext" \in KnownDevs
+                    /\ Cls(t[2]) = CLS_JMP /\ SrcBit(t[2]) = 0 /\ t[7] < 0
+                    /\ Op(t[2]) \in {J_EQ, J_NE, J_GT, J_GE, J_LT, J_LE}
+
 JmpCases(u) ==
-  { JmpCase(t[1], t[2], t[3], t[4], t[5], t[6], t[7], "nodata") :
-      t \in Sample(JmpIdxA(u) \cup JmpIdxB(u) \cup JmpIdxC(u)) }
+  LET S == Sample(JmpIdxA(u) \cup JmpIdxB(u) \cup JmpIdxC(u)) IN
+  { JmpCase(t[1], t[2], t[3], t[4], t[5], t[6], t[7], "nodata") : t \in S }
+  \cup
+  { [JmpCase(t[1], t[2], t[3], t[4], t[5], t[6], t[7], "nodata") EXCEPT !.dev = {"jmp_imm_zext"}] :
+      t \in {x \in S : JmpDevApplies(x)} }
 
 (***************************************************************************)
 (* Family "far": branches at any position up to the 1,000,000-instruction  *)
@@ -182,4 +192,177 @@ FarTail == << Mov64I(0, 1), I(21, 0, 0, 1, 1), ExitI, Add64I(0, 5), JaI(-3) >>
 FarCase(H) == [BaseCase EXCEPT !.id = <<"far", H, 0, 0, 0, 0, 0>>, !.fam = "far", !.vm = "nodata",
                                !.prog = FarProg(H, FarTail)]
 FarCases(u) == { FarCase(H) : H \in {0, 1, 2, 3, 30} }
+
+(***************************************************************************)
+(* Family "mem": loads zero-extend, stores truncate, little-endian, every  *)
+(* width; every base/value/destination register and displacement class     *)
+(* (the displacements select different x86 encodings in the JIT).           *)
+(***************************************************************************)
+SizeCode(w) == CASE w = 4 -> 0 [] w = 2 -> 8 [] w = 1 -> 16 [] w = 8 -> 24
+LdxI(w, d, s, off)   == I(97 + SizeCode(w), d, s, off, 0)      \* 0x61
+StI(w, d, off, imm)  == I(98 + SizeCode(w), d, 0, off, imm)    \* 0x62
+StxI(w, d, s, off)   == I(99 + SizeCode(w), d, s, off, 0)      \* 0x63
+XaddI(w, d, s, off)  == I(IF w = 4 THEN XADD_W ELSE XADD_DW, d, s, off, 0)
+LdAbsI(w, imm)       == I(32 + SizeCode(w), 0, 0, 0, imm)      \* 0x20
+LdIndI(w, s, imm)    == I(64 + SizeCode(w), 0, s, 0, imm)      \* 0x40
+Widths == {1, 2, 4, 8}
+
+PktLen == 32
+
+\* T6: store through rB at displacement off, load back into rD (packet, all register triples)
+MemProgRt(w, Rb, Rv, Rd, off, A) ==
+  Flat( LddwSlots(Rb, SubN(AddN(PktBase(PktLen), 8), 0))     \* rB = pkt + 8 ...
+        \o << Add64I(Rb, -off) >>                            \* ... - off
+        \o LddwSlots(Rv, A)
+        \o << StxI(w, Rb, Rv, off), LddwSlots(Rd, AllOnes)[1], LddwSlots(Rd, AllOnes)[2] >>
+        \o << LdxI(w, Rd, Rb, off) >>
+        \o (IF Rd # 0 THEN << Mov64R(0, Rd) >> ELSE <<>>)
+        \o << ExitI >> )
+
+MemIdxRt(u) == { <<"rt", w, Rb, Rv, Rd, OFFS[oi], ai>> :
+                   w \in Widths, Rb \in 0..9, Rv \in 0..9, Rd \in 0..9, oi \in 1..Len(OFFS), ai \in {13, 16, 19} }
+MemCaseRt(t) ==
+  [WithPkt([BaseCase EXCEPT !.vm = "raw"], PktLen) EXCEPT
+      !.id = t, !.fam = "mem",
+      !.prog = MemProgRt(t[2], t[3], t[4], t[5], t[6], V64[t[7]])]
+
+\* T1: stack round trip through r10 at negative displacements; partial overwrite of a full slot
+MemProgStk(w, Rv, Rd, off, k, A) ==
+  Flat( << StI(8, 10, off, 1431655765) >>                   \* stdw [r10+off], 0x55555555
+        \o LddwSlots(Rv, A)
+        \o << StxI(w, 10, Rv, off + k), LdxI(8, Rd, 10, off) >>
+        \o (IF Rd # 0 THEN << Mov64R(0, Rd) >> ELSE <<>>)
+        \o << ExitI >> )
+MemIdxStk(u) == { <<"stk", w, Rv, Rd, off, k, ai>> :
+                    w \in Widths, Rv \in {0, 4, 9}, Rd \in {0, 5, 9}, off \in {-8, -16, -128, -136, -512},
+                    k \in {0, 1, 3, 4, 7}, ai \in {13, 16, 19} }
+MemCaseStk(t) ==
+  [BaseCase EXCEPT !.vm = "nodata", !.id = t, !.fam = "mem",
+                   !.prog = MemProgStk(t[2], t[3], t[4], t[5], IF t[6] + t[2] <= 8 THEN t[6] ELSE 0, V64[t[7]])]
+
+\* T3: store-immediate truncation / sign extension, visible in the packet
+MemProgSti(w, off, imm) == Flat(<< StI(w, 1, off, imm), Mov64I(0, 0), ExitI >>)
+MemIdxSti(u) == { <<"sti", w, off, I32[ii], 0, 0, vk>> : w \in Widths, off \in {0, 1, 8, 23}, ii \in 1..NI, vk \in {1, 3} }
+MemCaseSti(t) ==
+  [Dress(BaseCase, VmKinds[t[7]]) EXCEPT !.id = t, !.fam = "mem", !.prog = MemProgSti(t[2], t[3], t[4])]
+
+\* T5: packet loads (absolute / indirect), every width and register
+MemProgAbs(w, imm) == Flat(<< LddwSlots(0, AllOnes)[1], LddwSlots(0, AllOnes)[2], LdAbsI(w, imm), ExitI >>)
+MemProgInd(w, Rs, k, imm) == Flat(<< Mov64I(Rs, k), LdIndI(w, Rs, imm), ExitI >>)
+MemIdxAbs(u) == { <<"abs", w, imm, 0, 0, 0, vk>> : w \in Widths, imm \in {0, 1, 5, 8}, vk \in {1, 3, 4} }
+MemIdxInd(u) == { <<"ind", w, Rs, k, imm, 0, 1>> : w \in Widths, Rs \in 0..9, k \in {0, 3}, imm \in {0, 4} }
+MemCaseAbs(t) == [Dress(BaseCase, VmKinds[t[7]]) EXCEPT !.id = t, !.fam = "mem", !.prog = MemProgAbs(t[2], t[3])]
+MemCaseInd(t) == [Dress(BaseCase, "raw") EXCEPT !.id = t, !.fam = "mem", !.prog = MemProgInd(t[2], t[3], t[4], t[5])]
+
+\* T2: wide immediates with every bit pattern in either half
+MemIdxLddw(u) == { <<"lddw", Rd, ai, 0, 0, 0, 0>> : Rd \in 0..9, ai \in 1..NV }
+MemCaseLddw(t) == [BaseCase EXCEPT !.vm = "nodata", !.id = t, !.fam = "mem",
+                     !.prog = Flat(LddwSlots(t[2], V64[t[3]]) \o (IF t[2] # 0 THEN << Mov64R(0, t[2]) >> ELSE <<>>) \o << ExitI >>)]
+
+HashMem(t) == LET n(x) == (IF x < 0 THEN -(x+1) ELSE x) % 9973
+              IN n(t[2]) + 3 * n(t[3]) + 5 * n(t[4]) + 7 * n(t[5]) + 11 * n(t[6]) + 13 * n(t[7])
+SampleM(Rs) == {t \in Rs : Keep(HashMem(t))}
+
+MemCases(u) ==
+  { MemCaseRt(t) : t \in {x \in SampleM(MemIdxRt(u)) : x[3] # x[4]} } \cup
+  { MemCaseStk(t) : t \in SampleM(MemIdxStk(u)) } \cup
+  { MemCaseSti(t) : t \in SampleM(MemIdxSti(u)) } \cup
+  { MemCaseAbs(t) : t \in MemIdxAbs(u) } \cup
+  { MemCaseInd(t) : t \in SampleM(MemIdxInd(u)) } \cup
+  { MemCaseLddw(t) : t \in SampleM(MemIdxLddw(u)) }
+
+(***************************************************************************)
+(* Family "bounds" (C02, C11): every access kind and width at every        *)
+(* position within 9 bytes of either end of every region, plus null and    *)
+(* wrap-around addresses, in several region layouts.                       *)
+(*   kind: 1 ldx  2 st  3 stx  4 xadd  5 ldabs  6 ldind                    *)
+(*   region: 1 packet  2 metadata  3 stack  4,5 registered ranges  0 none  *)
+(***************************************************************************)
+BPktLen == 16
+BMbufLen == 24
+BAllowLen == 12
+
+\* layouts: <<vm, packet length, number of registered ranges>>
+Layouts == << <<"raw", BPktLen, 0>>, <<"raw", 0, 0>>, <<"mbuff", BPktLen, 0>>, <<"nodata", 0, 0>>,
+              <<"raw", BPktLen, 2>>, <<"fixed", BPktLen, 0>> >>
+
+LayoutCase(li) ==
+  LET Lay  == Layouts[li]
+      c0 == [BaseCase EXCEPT !.vm = Lay[1]]
+      c1 == IF Lay[1] = "nodata" THEN c0 ELSE WithPkt(c0, Lay[2])
+      c2 == IF Lay[1] = "mbuff" THEN WithMbuf(c1, BMbufLen) ELSE c1
+  IN [c2 EXCEPT !.allow = [k \in 1..Lay[3] |-> [base |-> AllowBase(k, BAllowLen),
+                                                bytes |-> [j \in 1..BAllowLen |-> (64 * k + j) % 256]]]]
+
+\* length of region r in layout li (0 = absent)
+RegLen(li, r) ==
+  LET Lay == Layouts[li] IN
+  CASE r = 1 -> (IF Lay[1] = "nodata" THEN 0 ELSE Lay[2])
+    [] r = 2 -> (IF Lay[1] = "mbuff" THEN BMbufLen ELSE IF Lay[1] = "fixed" THEN 16 ELSE 0)
+    [] r = 3 -> StackSize
+    [] r \in {4, 5} -> (IF r - 3 <= Lay[3] THEN BAllowLen ELSE 0)
+
+PosSet(len) == (-9..1) \cup ((len - 9)..(len + 1))
+
+\* the access instruction (base register 3, value register 4)
+AccInsn(kind, w, off, imm) ==
+  CASE kind = 1 -> LdxI(w, 0, 3, off)
+    [] kind = 2 -> StI(w, 3, off, imm)
+    [] kind = 3 -> StxI(w, 3, 4, off)
+    [] kind = 4 -> XaddI(w, 3, 4, off)
+
+\* r3 := (address of byte `pos` of region r) - off, for caller-owned regions (concrete address),
+\* the stack (relative to r10) and the fixed VM's internal buffer (relative to r1)
+BaseSetup(c, r, pos, off) ==
+  LET d == pos - off IN
+  IF r = 3 THEN << Mov64R(3, 10), Add64I(3, d - StackSize) >>
+  ELSE IF r = 2 /\ c.vm = "fixed" THEN << Mov64R(3, 1), Add64I(3, d) >>
+  ELSE LET b == CASE r = 1 -> c.pkt.base [] r = 2 -> c.mbuf.base [] OTHER -> c.allow[r-3].base
+           a == IF d >= 0 THEN AddN(b, d) ELSE SubN(b, -d)
+       IN LddwSlots(3, a)
+
+BoundsProg(c, kind, w, r, pos, off) ==
+  Flat( BaseSetup(c, r, pos, off)
+        \o LddwSlots(4, V64[16])
+        \o << Mov64I(0, 0), AccInsn(kind, w, off, 305419896), ExitI >> )
+
+BoundsIdx(u) ==
+  UNION { { <<lr[1], kind, w, lr[2], pos, off>> :
+              kind \in 1..4, w \in Widths, pos \in PosSet(RegLen(lr[1], lr[2])), off \in {0, 8, -8} } :
+          lr \in { x \in (1..Len(Layouts)) \X (1..5) : RegLen(x[1], x[2]) > 0 } }
+BoundsOK(t) == /\ RegLen(t[1], t[4]) > 0
+               /\ t[5] \in PosSet(RegLen(t[1], t[4]))
+               /\ (t[2] = 4 => t[3] \in {4, 8})
+HashB(t) == LET n(x) == (IF x < 0 THEN -(x+1) ELSE x) % 9973
+            IN n(t[1]) + 3 * n(t[2]) + 5 * n(t[3]) + 7 * n(t[4]) + 11 * n(t[5]) + 13 * n(t[6])
+
+BoundsCaseOf(t) ==
+  LET c == LayoutCase(t[1]) IN
+  [c EXCEPT !.id = <<"b">> \o t, !.fam = "bounds", !.prog = BoundsProg(c, t[2], t[3], t[4], t[5], t[6])]
+
+\* absolute addresses that belong to no region: null, small, wrap-around
+AbsAddrs == << Zero, FromNat(1), FromNat(8), BNot(Zero), BNot(FromNat(1)), BNot(FromNat(7)), BNot(FromNat(8)) >>
+AbsCaseOf(li, kind, w, ai) ==
+  LET c == LayoutCase(li) IN
+  [c EXCEPT !.id = <<"abs", li, kind, w, ai, 0, 0>>, !.fam = "bounds",
+            !.prog = Flat(LddwSlots(3, AbsAddrs[ai]) \o LddwSlots(4, V64[16])
+                          \o << Mov64I(0, 0), AccInsn(kind, w, 0, 7), ExitI >>)]
+
+\* packet loads: ldabs imm / ldind r3 + imm around the packet's end and far beyond
+PktLoadCaseOf(li, ind, w, pos, k) ==
+  LET c == LayoutCase(li) IN
+  [c EXCEPT !.id = <<"pl", li, ind, w, pos, k, 0>>, !.fam = "bounds",
+            !.prog = IF ind = 0 THEN Flat(<< Mov64I(0, 0), LdAbsI(w, pos), ExitI >>)
+                     ELSE Flat(<< Mov64I(3, pos - k), LdIndI(w, 3, k), ExitI >>)]
+PktLoadIdx(u) == { <<li, ind, w, pos, k>> : li \in {1, 2, 3, 4, 6}, ind \in {0, 1}, w \in Widths,
+                     pos \in (0..2) \cup ((BPktLen - 9)..(BPktLen + 1)) \cup {2147483647, MinI32, -1},
+                     k \in {0, 4} }
+
+BoundsCases(u) ==
+  { BoundsCaseOf(t) : t \in {x \in BoundsIdx(u) : BoundsOK(x) /\ Keep(HashB(x))} } \cup
+  { AbsCaseOf(t[1], t[2], t[3], t[4]) :
+      t \in { <<li, kind, w, ai>> \in ({1, 3, 4} \X (1..4) \X Widths \X (1..Len(AbsAddrs))) :
+                kind = 4 => w \in {4, 8} } } \cup
+  { PktLoadCaseOf(t[1], t[2], t[3], t[4], t[5]) :
+      t \in {x \in PktLoadIdx(u) : (x[2] = 0 => x[5] = 0) /\ (x[4] \notin 0..100 => x[5] = 0)} }
 =============================================================================
